@@ -87,3 +87,28 @@ Theorem C15_uncached_reads_after_close :
   forall r, In r (attr_demands a o fs at_) -> needs_zip r = true -> cached r (l_cache st) = true.
 Proof. exact read_after_close_needs. Qed.
 Print Assumptions C15_uncached_reads_after_close.
+
+(* caches are per File object (one per relationship), not per path - machine-checked example: a header part related twice; save, close, read header: ValueError (save parsed only the last File of that path); read header, save, close, read header: the value *)
+Theorem C15_caches_are_per_file_object :
+  exists fs,
+    files sp_archive = Ok fs
+    /\ map fst (filter (fun x => str_eqb (f_path (snd x)) sp_header_path) (indexed fs)) = [2; 3]%nat
+    /\ map fst (ifiles_of_type fs s_header) = [2; 3]%nat
+    /\ map fst (save_files fs) = [0; 1; 3; 4]%nat
+    /\ snd (run_ops sp_archive sp_opts fs l_init [OpSave; OpClose; OpRead (ARuns s_header)])
+       = [OVal; ONone; OErr ValueError]
+    /\ snd (run_ops sp_archive sp_opts fs l_init
+              [OpRead (ARuns s_header); OpSave; OpClose; OpRead (ARuns s_header)])
+       = [OVal; OVal; ONone; OVal].
+Proof. exact shared_part_save_then_closed_read. Qed.
+Print Assumptions C15_caches_are_per_file_object.
+
+(* which Files save() parses: the last one of each distinct path among the rewritten types *)
+Theorem C15_save_reads_last_file_of_each_path :
+  forall fs i f,
+  In (i, f) (save_files fs) ->
+  nth_error fs i = Some f /\ is_overwritten f = true
+  /\ forall j g, nth_error fs j = Some g -> is_overwritten g = true ->
+                 f_path g = f_path f -> (j <= i)%nat.
+Proof. exact save_files_last. Qed.
+Print Assumptions C15_save_reads_last_file_of_each_path.
